@@ -5,3 +5,6 @@ CHECKS = {}
 for m in (props_bf, props_tape, props_static, props_parser, props_sv, props_arith, props_cli, props_compile,
           props_expr):
     CHECKS.update(m.CHECKS)
+
+from . import selftest as _selftest
+CHECKS["selftest"] = _selftest.selftest
